@@ -219,3 +219,13 @@ impl TlsAcceptor {
         self.inner.into_stream(tls_config).await
     }
 }
+
+/// Entry point for the deterministic-simulation harness (see `crate::verif`): what the
+/// listener makes of the first flight of a connection
+#[cfg(trusttunnel_verif)]
+pub(crate) async fn verif_peek(
+    stream: TcpStream,
+) -> io::Result<(Option<Vec<u8>>, Option<String>, Vec<Vec<u8>>)> {
+    let acceptor = TlsListener::new().listen(stream).await?;
+    Ok((acceptor.client_random(), acceptor.sni(), acceptor.alpn()))
+}
